@@ -233,7 +233,7 @@ func (w *World) typeFacts(v Term, t types.Type) []string {
 			out = append(out, fmt.Sprintf("(and (<= %s %s) (<= %s %s))", lo, v.S, v.S, hi))
 		}
 	case isSlice(t):
-		out = append(out, fmt.Sprintf("(and (<= 0 (soff %s)) (<= 0 (slen %s)) (<= (slen %s) (scap %s)))", v.S, v.S, v.S, v.S))
+		out = append(out, fmt.Sprintf("(and (<= 0 (soff %s)) (<= 0 (slen %s)) (<= (slen %s) (scap %s)) (<= (scap %s) 9223372036854775807))", v.S, v.S, v.S, v.S, v.S))
 	}
 	return out
 }
@@ -1020,6 +1020,9 @@ func (g *Gen) instr(in ssa.Instruction, st *State) {
 			val := T(fmt.Sprintf("(select (select %s %s) %s)", vals.S, m.S, k.S), w.sortOf(mt.Elem()))
 			has := T(fmt.Sprintf("(select (select %s %s) %s)", dom.S, m.S, k.S), "Bool")
 			w.assume(fmt.Sprintf("(=> (not %s) (= %s %s))", has.S, val.S, w.zero(mt.Elem()).S))
+			for _, f := range w.typeFacts(val, mt.Elem()) {
+				w.assume(f)
+			}
 			if v.CommaOk {
 				g.setTuple(v, 0, val)
 				g.setTuple(v, 1, has)
